@@ -281,13 +281,6 @@ class S:
         return e()
 
     def body(self, d, ind, bare=True):
-        if not bare and self.comments:
-            # a block used as a value: no bare fail / todo, and no comments (known finding fmt:pipeline-comment-not-idempotent)
-            self.comments = False
-            try:
-                return self.body(d, ind, bare)
-            finally:
-                self.comments = True
         out = ""
         for _ in range(self.r.randint(0, 3)):
             out += self.comment(ind)
